@@ -278,6 +278,8 @@ pub enum FaultKind {
     Garbage,
     /// malformed bytes without a line end, then silence (the connection stays open)
     GarbageOpen,
+    /// a well-formed `binary:` header announcing more bytes than can exist, then the end of the stream
+    HugeBinary,
     DropHandles,
 }
 
@@ -432,6 +434,7 @@ pub enum Ev {
     WriteErr,
     Garbage,
     GarbageOpen,
+    HugeBinary,
     DropHandles,
 }
 
@@ -463,11 +466,12 @@ impl Ev {
             Ev::WriteErr => "WriteErr".into(),
             Ev::Garbage => "Garbage".into(),
             Ev::GarbageOpen => "GarbageOpen".into(),
+            Ev::HugeBinary => "HugeBinary".into(),
             Ev::DropHandles => "DropHandles".into(),
         }
     }
     pub fn is_fault(&self) -> bool {
-        matches!(self, Ev::Close(_) | Ev::CloseRst(_) | Ev::ReadErr | Ev::ReadErrAfter(_) | Ev::WriteErr | Ev::Garbage | Ev::GarbageOpen | Ev::DropHandles)
+        matches!(self, Ev::Close(_) | Ev::CloseRst(_) | Ev::ReadErr | Ev::ReadErrAfter(_) | Ev::WriteErr | Ev::Garbage | Ev::GarbageOpen | Ev::HugeBinary | Ev::DropHandles)
     }
 }
 
@@ -1279,6 +1283,7 @@ impl World {
                     FaultKind::WriteErr => alts.push(Ev::WriteErr),
                     FaultKind::Garbage => alts.push(Ev::Garbage),
                     FaultKind::GarbageOpen => alts.push(Ev::GarbageOpen),
+                    FaultKind::HugeBinary => alts.push(Ev::HugeBinary),
                     FaultKind::DropHandles => {
                         if self.connected() && !self.handles_dropped && self.callers.iter().all(|c| c.pending.is_empty()) {
                             alts.push(Ev::DropHandles);
@@ -1476,6 +1481,16 @@ impl World {
                 s.s2c.extend_from_slice(b"garbage !!\n");
                 s.server.dead = true;
             }
+            Ev::HugeBinary => {
+                self.faults_used += 1;
+                self.fault = Some((ev.clone(), self.step));
+                let mut s = self.sh();
+                s.s2c.extend_from_slice(HUGE_BINARY);
+                let end = s.s2c.len();
+                s.closed_at = Some(end);
+                s.server.dead = true;
+                s.wake_reader();
+            }
             Ev::GarbageOpen => {
                 // bytes that cannot begin any protocol line; no line end follows and the peer stays
                 // connected but silent
@@ -1497,6 +1512,7 @@ impl World {
 }
 
 pub const GARBAGE_OPEN: &[u8] = b"\x00\xff";
+pub const HUGE_BINARY: &[u8] = b"binary: 18446744073709551615\n";
 
 /// number of branches of the loop's idle `select!` (2 at the pinned commit; calibrated by
 /// `poll_order_mode`, so that a third branch - a timer, a shutdown signal - does not blind the engine)
